@@ -26,6 +26,9 @@ func (c *BaseClient) Disconnect(ctx context.Context) error {
 	pkt := pack(packetDisconnect.b())
 	c.connStateUpdate(StateDisconnected)
 	if err := c.write(pkt); err != nil {
+		// The connection is finished either way; don't leave the transport
+		// and its reader behind.
+		c.Transport.Close()
 		return wrapError(err, "sending DISCONNECT")
 	}
 	c.Transport.Close()
